@@ -120,7 +120,7 @@ def replaceEntities (em : EntMap) (rev : RevMap) (b : List Char) : List Char := 
 def replaceEntitiesText (b : List Char) : List Char :=
   replaceEntities C03Tables.entitiesMap C03Tables.textRevEntitiesMap b
 def replaceEntitiesAttr (b : List Char) : List Char :=
-  replaceEntities C03Tables.entitiesMap [] b
+  replaceEntities C03Tables.entitiesMap C03Tables.attrRevEntitiesMap b
 
 /-- `parse.ReplaceMultipleWhitespaceAndEntities`: every maximal whitespace run becomes one byte (`\n` if the
     run contains `\n` or `\r`, else a space); references are replaced as in `replaceEntities`; bytes produced
